@@ -129,6 +129,27 @@ void ob_c19_tuple(int a, double b, long c, char d)
     t3 = t;
     OBLIGE("C19.tuple.assign.get", utl::get<0>(t3)==a && utl::get<3>(t3)==d, 0);
 }
+// --- tuples of every arity 2..8 (utl::tuple is written out by hand per arity, tuplev2 recursively): value construction, same-type copy,
+//     assignment and CONVERTING copy (source element types differ from the target's) keep every element at its own position
+#include "nmtools/utl/tuplev2.hpp"
+template <template <class...> class TUP, int KIND, size_t... I>
+__attribute__((always_inline)) inline void tuple_positions(const std::array<int,sizeof...(I)>& v, std::index_sequence<I...>)
+{
+    constexpr size_t N = sizeof...(I);
+    TUP<always_t<int,I>...> t{v[I]...};
+    for_<N>([&](auto J){ OBLIGE("C19.tuple.arity.get_returns_the_element_at_its_position", utl::get<J.value>(t) == v[J.value], KIND, N, J.value); });
+    auto c = t;
+    for_<N>([&](auto J){ OBLIGE("C19.tuple.arity.copy_keeps_positions", utl::get<J.value>(c) == v[J.value], KIND, N, J.value); });
+    TUP<always_t<long,I>...> w(t);                       // converting copy: int -> long at every position
+    for_<N>([&](auto J){ OBLIGE("C19.tuple.arity.converting_copy_keeps_positions", utl::get<J.value>(w) == (long)v[J.value], KIND, N, J.value); });
+    TUP<always_t<int,I>...> a{(int)(I * 0)...};
+    a = t;
+    for_<N>([&](auto J){ OBLIGE("C19.tuple.arity.assignment_keeps_positions", utl::get<J.value>(a) == v[J.value], KIND, N, J.value); });
+}
+template <size_t N> void ob_c19_tuple_arity(const std::array<int,N>& v) { tuple_positions<utl::tuple,0>(v, std::make_index_sequence<N>{}); }
+template <size_t N> void ob_c19_tuplev2_arity(const std::array<int,N>& v) { tuple_positions<utl::tuplev2,1>(v, std::make_index_sequence<N>{}); }
+#define TA(N) template void ob_c19_tuple_arity<N>(const std::array<int,N>&); template void ob_c19_tuplev2_arity<N>(const std::array<int,N>&);
+TA(2) TA(3) TA(4) TA(5) TA(6) TA(7) TA(8) TA(9) TA(10) TA(11) TA(12)
 // --- utl::maybe<int>
 void ob_c19_maybe(int x, const utl::maybe<int>& o_)
 {
